@@ -8,6 +8,7 @@ The quoting functions are the model of /repo's code (`MesonModel/Quote/Model.lea
 strings / all argument lists.
 -/
 import MesonModel.Quote.RuleLemmas
+import MesonModel.Quote.DigestLemmas
 
 namespace MesonModel.Props.C03
 open MesonModel.Quote MesonModel.Py
@@ -679,5 +680,43 @@ theorem test_args_arrive (wrapper prog args extra : List Str) :
   · rw [e, l, List.drop_left]
   · rw [e, l, List.take_left]
   · simp [testCmd]; omega
+
+/-! ### The pickled wrapper file: different commands, different files -/
+
+/-- with an injective digest, the file name separates two argument lists of one program exactly when
+the text fed to the digest does -/
+theorem dat_name_injective_iff (H : Str → Str) (hH : ∀ x y, H x = H y → x = y) (enc : List Str → Str) :
+    (∀ prog a b, datName H enc prog a = datName H enc prog b → a = b) ↔ (∀ a b, enc a = enc b → a = b) := by
+  constructor
+  · intro h a b e
+    exact h [] a b (by simp only [datName, e])
+  · intro h prog a b e
+    apply h
+    apply hH
+    unfold datName at e
+    exact List.append_cancel_right (List.append_cancel_left e)
+
+/-- `str(es.cmd_args)` (its quote/escape/separator structure) separates every two argument lists -/
+theorem repr_encoding_injective (a b : List Str) (h : reprList a = reprList b) : a = b :=
+  reprList_injective a b h
+
+/-- so with it the wrapper file of a command is never shared with a command of the same program that
+has other arguments -/
+theorem dat_name_separates (H : Str → Str) (hH : ∀ x y, H x = H y → x = y) (prog : Str) (a b : List Str)
+    (h : datName H reprList prog a = datName H reprList prog b) : a = b :=
+  (dat_name_injective_iff H hH reprList).2 reprList_injective prog a b h
+
+/-- feeding the arguments to the digest one after the other does not: the boundary can move -/
+theorem concat_encoding_not_injective :
+    ¬ (∀ a b : List Str, concatEnc a = concatEnc b → a = b) := by
+  intro h
+  have := h [['a', 'b'], ['c']] [['a'], ['b', 'c']] (by decide)
+  revert this
+  decide
+
+theorem concat_names_collide (H : Str → Str) (prog : Str) :
+    datName H concatEnc prog [['a', 'b'], ['c']] = datName H concatEnc prog [['a'], ['b', 'c']] ∧
+    datName H concatEnc prog [['a', 'b', 'c']] = datName H concatEnc prog [['a', 'b', 'c'], []] := by
+  constructor <;> rfl
 
 end MesonModel.Props.C03
